@@ -42,7 +42,9 @@ func (l *List) MultiUse(st funcGen.Stack[Value]) (Map, error) {
 			pr := prList[i]
 			go mu.runConsumer(pr, done)
 		}
-		err := run(l.iterable(st))
+		// A panic of the source list must not unwind this function,
+		// because the consumer goroutines would never be terminated.
+		err := run(recoverProducerPanic(l.iterable(st)))
 
 		if err != nil {
 			return EmptyMap, err
